@@ -28,6 +28,7 @@ def project : Step → Option Obs
   | .resetSlaveAll h ok => some { s := "resetSlaveAll", host := h, ok := ok }
   | .setWritable h ok => some { s := "setWritable", host := h, ok := ok }
   | .setMasterKey h ok => some { s := "setMasterKey", host := h, ok := ok }
+  | .writeEmerge => some { s := "writeEmerge" }
   | _ => none
 
 def obsKey (o : Obs) : String := s!"{o.s}/{o.host}/{o.to}/{o.ok}/{o.n}"
@@ -95,7 +96,13 @@ def handle : Handler := fun j a => do
   let obsAll ← (← jArr j "steps").toList.mapM parseObs
   -- failed stop/change/start groups leave no reliable trace (a refused connection produces no event at all):
   -- only successful re-pointings are compared, failures show through what is missing afterwards
-  let obs := obsAll.filter fun o => !((o.s == "changeMaster" || o.s == "stopReplica" || o.s == "stopSlave" || o.s == "freezeRO" || o.s == "stopIO") && !o.ok)
+  let emerge0 ← jBool j "emerge"
+  -- the emergency marker is observed through the file; the split-brain test sits between the position reads and the choice
+  let obsAll := if emerge0 then
+      (let (pre, post) := obsAll.span fun o => o.s == "freezeRO" || o.s == "stopIO" || o.s == "rejectInside" || (o.s == "lockCheck" && o.n == 1)
+       pre ++ [({ s := "writeEmerge" } : Obs)] ++ post)
+    else obsAll
+  let obs := obsAll.filter fun o => o.ok || o.s == "lockCheck"
   let emerge ← jBool j "emerge"
   let panicked ← jStr j "panic"
   let errS ← jStr j "err"
@@ -153,11 +160,15 @@ def handle : Handler := fun j a => do
       -- a re-pointing that failed without leaving any event (target refused the connection)
       { i with cs2 := cs.map fun (h, st) => (h, { st with pingOk := (match final.find? (·.host == h) with | some n => n.alive | none => false), pingDubious := false }),
                repoint := fun h => afterLock2.any fun o => o.s == "changeMaster" && o.host == h && o.ok },
-      { i with eventsOk := false }, { i with optStopOk := false }]
-    (withPos ++ noPos).flatMap more
+      { i with eventsOk := false }, { i with optStopOk := false },
+      { i with stopSlaveOk := false }, { i with resetOk := false }, { i with writableOk := false }, { i with masterKeyOk := false }]
+    let victim := match jOpt j "fault" with | some f => jStrOr f "kill" "" | none => ""
+    -- a node killed while its own freeze statement was in flight may or may not have answered
+    let killed := fun (i : In) => if victim == "" then [i] else [i, { i with io := fun h => i.io h && h != victim }, { i with ro := fun h => i.ro h && h != victim }]
+    ((withPos ++ noPos).flatMap killed).flatMap more
   -- unreachable hosts receive no statement in the freeze phases: their (failed) model steps are not observable
   let reach := fun (h : String) => (pingOk cs h == some true)
-  let proj := fun (i : In) => canon (((performSwitchover cfg i).filterMap project).filter fun o => !((o.s == "freezeRO" || o.s == "stopIO") && (!reach o.host || !o.ok)))
+  let proj := fun (i : In) => canon (((performSwitchover cfg i).filterMap project).filter fun o => (o.ok || o.s == "lockCheck") && !((o.s == "freezeRO" || o.s == "stopIO") && !reach o.host))
   let found := variants.find? fun i => proj i == target
   if panicked != "" then
     a := a.tag "c01:panic"
@@ -166,10 +177,7 @@ def handle : Handler := fun j a => do
     | none =>
       let m0 := proj { base with positions := some posList }
       a := a.mismatch s!"c01 steps impl={repr (target.map obsKey)} model(best guess)={repr (m0.map obsKey)} frozen={fr} err='{errS}' on {j.compress}"
-    | some i =>
-      -- the emergency marker must agree with the model's split-brain step
-      let mSteps := performSwitchover cfg i
-      if mSteps.contains .writeEmerge != emerge then a := a.mismatch s!"c01 emerge impl={emerge} model={mSteps.contains .writeEmerge} on {j.compress}"
+    | some _ => pure ()
   -- ---- monitors (property C01, also C03/C07/C11 clauses that live in this procedure) ----
   let quorum : Int := if cfg.semiSync then max ((active.length : Int) - min ((active.length : Int) / 2) cfg.waitCount) 1 else 1
   for s in snaps do
@@ -215,15 +223,17 @@ def handle : Handler := fun j a => do
   if has "resetSlaveAll" && okOf "resetSlaveAll" then
     let promoted := ((obs.filter (·.s == "resetSlaveAll")).getLast?.map (·.host)).getD ""
     if promoted != oldMaster then
-      -- the old master's state when the promotion statement arrived (the decision was taken just before)
-      let promoNodes := match snaps.find? fun s => (jStrOr s "at" "").startsWith "promote:" with
-        | some s => snapNodes s
-        | none => final
-      let oldAt := promoNodes.find? (·.host == oldMaster)
+      -- what the procedure itself saw before promoting: a replica status row of the old master that names the
+      -- promoted host as source (evidence from the event log), and the old master's set (frozen since phase 1)
+      -- contained in the most recent position
+      let evs := (jStrList j "evs").toOption.getD []
+      let beforePromo := evs.takeWhile fun e => !(e.splitOn ":reset_replica_all").length ≥ 2
+      let sawCleanRow := beforePromo.any fun e => e.startsWith s!"{oldMaster}:replica_status=row:{promoted}|"
       let mostRecentSet := match posList.find? fun m => posList.all fun p => contain m.gtid p.gtid with | some m => m.gtid | none => []
-      let confirmedClean := match oldAt with
-        | some n => n.alive && n.isReplica && n.ioErrno == 0 && n.sqlErrno == 0 && contain mostRecentSet (parseD n.executed)
-        | none => false
+      let oldSet := match lock1Snap with
+        | some s => ((snapNodes s).find? (·.host == oldMaster)).map fun n => parseD n.executed
+        | none => none
+      let confirmedClean := sawCleanRow && (match oldSet with | some os => contain mostRecentSet os | none => false)
       let iMark := obs.findIdx? fun o => o.s == "setRecovery" && o.host == oldMaster && o.ok
       let iProm := obs.findIdx? fun o => o.s == "resetSlaveAll"
       if !confirmedClean then
